@@ -70,7 +70,9 @@ mutual
     `SQFS_INODE_DIR`/`EXT_DIR`); restore_fstree.c uses `(const char *)n->inode->extra` as the target. -/
 def decode : TNode → TNode
   | .mk n k p a ch =>
-    .mk (cstr n) k (if k = .lnk then cstr p else p) a (if k = .dir then decodeL ch else [])
+    .mk (cstr n) k (if k = .lnk then cstr p else p)
+      { a with xattrs := a.xattrs.map (fun kv => (cstr kv.1, kv.2)) }       -- `lsetxattr(path, (const char *)key->key, …)`
+      (if k = .dir then decodeL ch else [])
 def decodeL : List TNode → List TNode
   | [] => []
   | c :: cs => decode c :: decodeL cs
@@ -365,7 +367,7 @@ abbrev Fs := PathC → Option Node
 def Fs.set (fs : Fs) (key : PathC) (n : Node) : Fs := fun q => if q = key then some n else fs q
 
 inductive Errno where
-  | ENOENT | EEXIST | ENOTDIR | ELOOP | ENAMETOOLONG | EISDIR | EPERM | ENXIO
+  | ENOENT | EEXIST | ENOTDIR | ELOOP | ENAMETOOLONG | EISDIR | EPERM | ENXIO | EINVAL
   deriving DecidableEq, Repr
 
 abbrev NAME_MAX : Nat := 255
@@ -416,6 +418,10 @@ def setKV (k v : Bytes) : List (Bytes × Bytes) → List (Bytes × Bytes)
 
 /-- "user." -/
 def userPrefix : Bytes := [117, 115, 101, 114, 46]
+/-- "trusted." -/
+def trustedPrefix : Bytes := [116, 114, 117, 115, 116, 101, 100, 46]
+/-- "security." -/
+def securityPrefix : Bytes := [115, 101, 99, 117, 114, 105, 116, 121, 46]
 
 /-- `(uid_t)-1`: leave unchanged -/
 abbrev ID_KEEP : Nat := 0xFFFFFFFF
@@ -451,13 +457,15 @@ def step (fs : Fs) (cwd : PathC) : Syscall → Except Errno Fs
     | .ok (key, some ⟨.file _, a⟩) => .ok (fs.set key ⟨.file data, a⟩)
     | .ok (_, some ⟨.dir, _⟩) => .error .EISDIR
     | .ok (_, some ⟨.symlink _, _⟩) => .error .ELOOP
-    | .ok (_, some ⟨.special _ _, _⟩) => .error .ENXIO
+    | .ok (_, some ⟨.special .sock _, _⟩) => .error .ENXIO
+    | .ok (_, some ⟨.special _ _, _⟩) => .ok fs        -- FIFO / device opened O_RDWR: no change to the name space
   | .setxattr p k v nofollow =>
     match resolve fs cwd p (!nofollow) with
     | .error e => .error e
     | .ok (_, none) => .error .ENOENT
     | .ok (key, some n) =>
-      if userPrefix.isPrefixOf k && !n.kind.isUserXattrOk then .error .EPERM
+      if userPrefix.isPrefixOf k && !n.kind.isUserXattrOk then .error .EPERM            -- user.* only on files and directories
+      else if k = userPrefix ∨ k = trustedPrefix ∨ k = securityPrefix then .error .EINVAL   -- empty name after the prefix
       else .ok (fs.set key { n with attr := { n.attr with xattrs := setKV k v n.attr.xattrs } })
   | .utimens p t nofollow =>
     match resolve fs cwd p (!nofollow) with
